@@ -27,6 +27,9 @@ REPO = C.REPO
 T0 = datetime(2020, 1, 1, tzinfo=timezone.utc)
 
 
+NATIVE_LIMIT = sys.getrecursionlimit()
+
+
 class PathTimeout(BaseException):
     pass
 
@@ -72,7 +75,7 @@ def identifiers(text):
     return out
 
 
-def run_query(text, limit_s=30):
+def run_query(text, limit_s=30, concrete_limit=False):
     """returns (outcome, detail): outcome 'ok' | 'escape' | 'outside' | 'timeout'"""
     ds = make_datastore()
 
@@ -87,6 +90,8 @@ def run_query(text, limit_s=30):
     old_limit = sys.getrecursionlimit()
     if isinstance(text, sstr.SStr):
         sys.setrecursionlimit(60000)
+    elif concrete_limit:
+        sys.setrecursionlimit(NATIVE_LIMIT)
     try:
         try:
             Q2.query("name", text, T0, T0 + timedelta(hours=1), ds)
@@ -159,8 +164,9 @@ def h_mutate(x, seed, kinds=("sub", "ins"), edit="none", nsym=1):
     return verdict(text)
 
 
-ARGS = ["1", '"b1"', "'zz'", "[]", '["zz", 1]', "{}", "{'a': 1}", "x"]
-ARG_TYPES = ["int", "str", "str", "list", "list", "dict", "dict", "list"]
+ARGS = ["1", '"b1"', "'zz'", "'host2'", "[]", '["zz", 1]', "{}", "{'a': 1}", "x"]
+ARG_TYPES = ["int", "str", "str", "str", "list", "list", "dict", "dict", "list"]
+BUCKET_HOSTS = {"b1": "host1", "b2": "host2"}  # as make_datastore() creates them
 # top-level parameter types of the built-ins as documented (own table; None = untyped / optional)
 PARAM_TYPES = {
     "filter_keyvals": ["list", "str", "list"], "exclude_keyvals": ["list", "str", "list"], "filter_keyvals_regex": ["list", "str", "str"],
@@ -193,10 +199,20 @@ def h_misuse(x, maxargs=3):
             obl.append(("wrong-top-level-argument-type-is-a-function-error/%s" % f, outcome == "ok" and detail == "QueryFunctionException"))
         if not arity_ok and not mismatch:
             obl.append(("wrong-argument-count-is-an-interpret-error/%s" % f, outcome == "ok" and detail == "QueryInterpretException"))
-    if f in ("query_bucket", "query_bucket_eventcount", "find_bucket") and args == ["'zz'"]:
-        # an unknown bucket must be reported as a function error
+    if f in ("query_bucket", "query_bucket_eventcount", "find_bucket") and req is not None and arity_ok and all(t == "str" for t in types):
+        # well-typed bucket lookups: a value if the bucket exists (own reference over the two buckets of
+        # make_datastore), a function error if it does not — nothing else
+        vals = [a.strip("'\"") for a in args]
+        if f == "find_bucket":
+            host = vals[1] if len(vals) > 1 else None
+            known = any(vals[0] in b and (not host or BUCKET_HOSTS[b] == host) for b in BUCKET_HOSTS)
+        else:
+            known = vals[0] in BUCKET_HOSTS
         outcome, detail = run_query(text)
-        obl.append(("unknown-bucket-is-a-function-error/%s" % f, outcome == "ok" and detail == "QueryFunctionException"))
+        if known:
+            obl.append(("known-bucket-yields-a-value/%s" % f, outcome == "ok" and detail == "value"))
+        else:
+            obl.append(("unknown-bucket-is-a-function-error/%s" % f, outcome == "ok" and detail == "QueryFunctionException"))
     return obl, obs
 
 
@@ -221,6 +237,46 @@ def h_long(x):
         body = ['"'] + ["a"] * n + [c, '"']
     text = sstr.mk(list("RETURN = ") + body + [";"])
     return verdict(text)
+
+
+_THRESHOLD = {}
+
+
+def depth_threshold(opener, closer, inner):
+    """largest nesting depth that the real code still evaluates under the interpreter's own recursion limit,
+    found by bisection on concrete texts from the caller's stack depth (the scan is centred on it)"""
+    key = (opener, closer, inner)
+    if key not in _THRESHOLD:
+        def works(d):
+            try:
+                return run_query("RETURN = " + opener * d + inner.replace("%s", " ") + closer * d + ";", concrete_limit=True) == ("ok", "value")
+            except BaseException:  # noqa — whatever happens beyond the limit, the depth does not work
+                return False
+
+        lo, hi = 1, 4000
+        while lo < hi:
+            mid = (lo + hi + 1) // 2
+            if works(mid):
+                lo = mid
+            else:
+                hi = mid - 1
+        _THRESHOLD[key] = lo
+    return _THRESHOLD[key]
+
+
+def h_depth(x, opener, closer, inner, window):
+    """nesting depths around the point where the interpreter's recursion limit is reached, one by one:
+    parsing and interpreting need a different number of frames per level, so the depth at which each gives
+    up differs.  The symbolic run has recursion headroom; what decides is the native run of each path's
+    model under the real limit."""
+    candidates(identifiers(inner))
+    t = depth_threshold(opener, closer, inner)
+    d = t - window + x.choice("depth_offset", 2 * window + 1)
+    c = sstr.fresh_char(x, "c0")
+    pre, post = inner.split("%s")
+    text = sstr.mk(list("RETURN = ") + list(opener * d) + list(pre) + [c] + list(post) + list(closer * d) + [";"])
+    obl, obs = verdict(text)
+    return obl, []  # whether the limit is hit legitimately differs between the shadow run (headroom) and the native run
 
 
 CONTEXTS = ["%s", "RETURN=%s", "RETURN=nop(%s)", "RETURN=[%s]", "RETURN={%s}", "RETURN={'a':%s}", "RETURN=sum_durations(%s);"]
@@ -267,6 +323,11 @@ def harnesses(tier):
             hs.append((Harness(PROP, "mutate2-short%02d" % i, h_mutate, dict(seed=seed, nsym=2), "seed %r with two arbitrary characters substituted / inserted" % seed, split_depth=8), 3600))
     hs.append((Harness(PROP, "builtin-misuse", h_misuse, dict(maxargs=2 if tier == "quick" else 3), "every registered built-in with 0..%d arguments drawn from %d values of assorted types" % (2 if tier == "quick" else 3, len(ARGS)), split_depth=8), 1800))
     hs.append((Harness(PROP, "long-inputs", h_long, {}, "integer literals of up to 4301 digits, lists / dicts nested 1500 deep, calls 700 deep, strings of 5000 characters, one arbitrary character inside", split_depth=6), 1800))
+    w = 5 if tier == "quick" else 40
+    for nm, (o, c_, inner) in dict(list=("[", "]", "nop(%s)"), dict=("{'a':", "}", "sum_durations([%s])"), call=("sort_by_timestamp(", ")", "[%s]")).items():
+        if tier == "quick" and nm != "list":
+            continue
+        hs.append((Harness(PROP, "depth-scan-%s" % nm, h_depth, dict(opener=o, closer=c_, inner=inner, window=w), "every nesting depth within %d of the deepest one that still evaluates (found by bisection), %r around %r with one arbitrary character inside" % (w, o, inner), split_depth=7), 1800))
     lengths = [1, 2] if tier == "quick" else [1, 2, 3]
     for ci, ctx in enumerate(CONTEXTS):
         for L in lengths:
@@ -284,6 +345,7 @@ def meta(chk, tier):
         "thorough: the same after a delete / duplicate / swap edit at every position; two symbolic characters on %d short seeds" % len(SHORT_SEEDS),
         "free strings of 1..2 (quick) / 1..3 (+4 bare) (thorough) symbolic characters alone and inside %d contexts" % (len(CONTEXTS) - 1),
         "long inputs (kind, size): %s" % (LONG_CASES,),
+        "nesting depth scan: every depth within %d of the deepest nesting (of lists; thorough: also dicts and calls) that still evaluates under the interpreter's real recursion limit, decided by the native run" % (5 if tier == "quick" else 40),
         "each path limited to 30 s wall clock (a path that exceeds it is reported as non-termination)",
     ]
     chk.stubs = ["aw_query.query2.int -> sym_int (decimal digits; other symbolic chars -> ValueError like CPython)", "aw_query.functions.isinstance -> treats a symbolic integer as int",
